@@ -372,7 +372,7 @@ func CheckMain(args []string) int {
 			}
 			per = append(per, map[string]any{"search": bd.Name, "alphabet_size": len(bd.Alphabet), "max_burst": bd.Burst, "transitions_per_state": len(bd.moves()), "depth_bound": bd.Depth, "depth_completed": bs.Depth,
 				"fixed_point": bs.FixedPoint, "distinct_states": bs.States, "operations_applied": bs.Transitions, "new_states_per_depth": bs.PerDepth, "cut_by_deadline": !bs.Exhaustive,
-				"burst_phase": map[string]any{"burst_len": bd.TailBurst, "from_states_up_to_depth": bd.TailDepth, "bursts_applied": bs.TailTransitions, "new_states_seen": bs.TailNewStates}})
+				"burst_phase": map[string]any{"burst_len": bd.TailBurst, "from_states_up_to_depth": bd.TailDepth, "pairs_from_states_up_to_depth": bd.PairDepth, "bursts_applied": bs.TailTransitions, "new_states_seen": bs.TailNewStates}})
 		}
 		cov["searches"] = per
 	}
